@@ -344,3 +344,69 @@ func (pe *pipeEnv) credCase(c *credCase) map[string]any {
 	}
 	return res
 }
+
+func init() { commands["c06-conc"] = c06Conc }
+
+// c06Conc: Pipeline.tla CredConc. Tunnels to different sites, each with its own --credentials entry, are opened
+// through the same upstream proxy at the same time: every CONNECT the upstream proxy receives carries the
+// credentials of its own target and nobody else's ("confined to the hop they belong to" holds per request).
+func c06Conc(e *env) {
+	const sites, G, N = 6, 12, 30
+	fc := fwdCfg{Name: "fwd", Localhost: "allow", Upstream: "http://" + addrA}
+	for i := 0; i < sites; i++ {
+		fc.Creds = append(fc.Creds, fmt.Sprintf("u%d:pw-%d@s%d.conc.test:8080", i, i, i))
+	}
+	pe, err := newPipeEnv(fc, "")
+	if err != nil {
+		fatal("start proxy: %v", err)
+	}
+	defer pe.close()
+	pe.log.reset()
+	var wg sync.WaitGroup
+	var emu sync.Mutex
+	errs := 0
+	for g := 0; g < G; g++ {
+		wg.Add(1)
+		go func(g int) {
+			defer wg.Done()
+			for i := 0; i < N; i++ {
+				k := (g + i) % sites
+				cl, err := dialRaw(pe.f.addr)
+				if err != nil {
+					fatal("dial proxy: %v", err)
+				}
+				hp := fmt.Sprintf("s%d.conc.test:8080", k)
+				cl.send([]byte("CONNECT " + hp + " HTTP/1.1\r\nHost: " + hp + "\r\n\r\n"))
+				if r, err := readWireResponseHeadOnly(cl.br); err != nil || r.Status != 200 {
+					emu.Lock()
+					errs++
+					emu.Unlock()
+				}
+				cl.close()
+			}
+		}(g)
+	}
+	wg.Wait()
+	res := map[string]any{"ok": true, "connects": G * N, "failed": errs}
+	seen := 0
+	for _, h := range pe.log.snapshot() {
+		if h.Kind != "connect" || h.Peer != "A" {
+			continue
+		}
+		seen++
+		var k int
+		if _, err := fmt.Sscanf(h.Target, "s%d.conc.test:8080", &k); err != nil {
+			continue
+		}
+		want := "Basic " + b64(fmt.Sprintf("u%d:pw-%d", k, k))
+		if len(h.Auth) != 1 || h.Auth[0] != want {
+			res["ok"], res["why"] = false, fmt.Sprintf("the CONNECT for %s reached the upstream proxy with Authorization %q, the entry for that site is %q", h.Target, h.Auth, want)
+			break
+		}
+	}
+	res["seen"] = seen
+	if res["ok"] == true && seen < G*N/2 {
+		res["ok"], res["why"] = false, fmt.Sprintf("only %d of %d CONNECTs reached the upstream proxy", seen, G*N)
+	}
+	e.emit(res)
+}
